@@ -450,7 +450,7 @@ pub fn run(ctx: &Ctx) -> Report {
         Item::Data(Some(16), vec!["0x1234".into()]),
         Item::Addr("A + 2".into()),
         Item::Addr("B - 1".into()),
-        Item::Addr("6".into()),
+        Item::Addr("0x16".into()),
         Item::Res("B - A".into()),
         Item::Res("A".into()),
         Item::Align("(B - A) * 8".into()),
@@ -463,9 +463,11 @@ pub fn run(ctx: &Ctx) -> Report {
     let maxlen_d: u32 = if ctx.thorough { 4 } else { 3 };
     let nseq_d = seq_count(kd, maxlen_d);
     let npos = (maxlen_d as u64 + 1) * (maxlen_d as u64 + 1);
-    let n2d = nseq_d * npos;
+    let n2d = nseq_d * npos * 2;
     rep.absorb(par_run(n2d, |i, l| {
-        let d = decode(i, &[npos, nseq_d]);
+        let d = decode(i, &[2, npos, nseq_d]);
+        let in_bank = d[0] == 1;
+        let d = [d[1], d[2]];
         let seq = seq_decode(d[1], kd, maxlen_d);
         let (pa, pb) = ((d[0] / (maxlen_d as u64 + 1)) as usize, (d[0] % (maxlen_d as u64 + 1)) as usize);
         // the two labels stand at every pair of positions pa <= pb of the sequence
@@ -478,9 +480,13 @@ pub fn run(ctx: &Ctx) -> Report {
         let mut prog = f2_prog(&seq, &ditems, false);
         prog.items.insert(pb, Item::Label("B".into()));
         prog.items.insert(pa, Item::Label("A".into()));
+        if in_bank {
+            // a bank that does not start at address 0: a not yet known label must not be mistaken for address 0
+            prog.items.insert(0, Item::Bankdef(BankSrc { name: "x".into(), bits: Some(8), addr: Some(0x10), size: Some(0x20), outp: Some(0), fill: false, labelalign: None }));
+        }
         judge_prog(&prog, "F2-label-layout", &opts, l);
     }));
-    levels.push(json!({"family": format!("F2-label-layout sequences of length <= {} over {} items (label-dependent #addr/#res/#align) x every pair of positions of the labels A <= B", maxlen_d, kd), "cases": n2d}));
+    levels.push(json!({"family": format!("F2-label-layout sequences of length <= {} over {} items (label-dependent #addr/#res/#align) x every pair of positions of the labels A <= B x {{default bank, a bank at address 0x10}}", maxlen_d, kd), "cases": n2d}));
     let maxlen_b = if ctx.thorough { 3 } else { 2 };
     let n2b = seq_count(k, maxlen_b);
     rep.absorb(par_run(n2b, |i, l| {
